@@ -190,3 +190,59 @@ pub fn run(lines: &[Line], inp: &Inputs, budget: u64) -> Report {
     }
     rep
 }
+
+#[cfg(test)]
+mod tests {
+    use super::*;
+    use crate::choice::Choices;
+
+    fn prog(body: Vec<Line>) -> Vec<Line> {
+        let mut p = vec![
+            label("main"),
+            ins("li", vec![r(10), i(5)]),
+            ins("jal", vec![l("f")]),
+            ins("add", vec![r(10), r(10), r(10)]),
+            ins("li", vec![r(17), i(1)]),
+            ins("ecall", vec![]),
+            ins("li", vec![r(17), i(10)]),
+            ins("ecall", vec![]),
+            label("f"),
+        ];
+        p.extend(body);
+        p
+    }
+
+    fn kinds(p: &[Line]) -> Option<String> {
+        let inp = Inputs::from_choices(&mut Choices::new(&[7, 11, 13]));
+        run(p, &inp, 2000).complaint.map(|c| c.kind)
+    }
+
+    #[test]
+    fn conforming_function_passes() {
+        let p = prog(vec![
+            ins("addi", vec![r(2), r(2), i(-8)]),
+            ins("sw", vec![r(1), m(4, 2)]),
+            ins("sw", vec![r(8), m(0, 2)]),
+            ins("mv", vec![r(8), r(10)]),
+            ins("addi", vec![r(10), r(8), i(1)]),
+            ins("lw", vec![r(8), m(0, 2)]),
+            ins("lw", vec![r(1), m(4, 2)]),
+            ins("addi", vec![r(2), r(2), i(8)]),
+            ins("ret", vec![]),
+        ]);
+        assert_eq!(kinds(&p), None);
+    }
+
+    #[test]
+    fn violations_are_seen() {
+        // a saved register changed and not restored
+        let p = prog(vec![ins("li", vec![r(9), i(3)]), ins("add", vec![r(10), r(10), r(9)]), ins("ret", vec![])]);
+        assert_eq!(kinds(&p).as_deref(), Some("saved-register-not-restored"));
+        // sp not restored
+        let p = prog(vec![ins("addi", vec![r(2), r(2), i(-8)]), ins("addi", vec![r(10), r(10), i(1)]), ins("ret", vec![])]);
+        assert!(matches!(kinds(&p).as_deref(), Some("sp-not-restored") | Some("return-to-wrong-address")));
+        // a temporary that was never assigned is read
+        let p = prog(vec![ins("add", vec![r(10), r(10), r(28)]), ins("ret", vec![])]);
+        assert_eq!(kinds(&p).as_deref(), Some("read-undefined-register"));
+    }
+}
